@@ -36,6 +36,19 @@ def groups(n, seed):
         pk = gen.random_params(rng, iteration_limit=60)
         gs.append({"tag": "C02.outside", "runs": [{"prob": ps, "params": pk, "x0_outside": float([0.5, 2.0, 7.0][i % 3]),
                                                    "obj_limit_at_start": [1.0, 0.0, 100.0][(i // 3) % 3]}]})
+    # infeasible over the box, started outside the box on the side the violation gradient points to: LocallyInfeasible needs
+    # stationarity over the box at the returned point, and a point outside the box is not "at" a bound
+    from harness import sweep
+    k = 0
+    while k < max(4, n // 20):
+        s = int(rng.integers(0, 2 ** 31))
+        prob, _, _ = sweep.build_problem(("infeasible", s, 3))
+        if not (np.isfinite(prob.var_ub).all() and np.isfinite(prob.var_lb).all()):
+            continue
+        pk = gen.random_params(rng, iteration_limit=40)
+        gs.append({"tag": "C02.outside.infeasible", "runs": [{"prob": ("infeasible", s, 3), "params": pk,
+                                                              "x0_outside": [-0.1, -0.05, -0.2, 0.1][k % 4]}]})
+        k += 1
     return gs
 
 
